@@ -10,6 +10,17 @@ from engine.core import Ob, excluded
 from spec import repcodes as S
 from spec import repcodes_ref as REF
 
+CLAIM = dict(
+    engine='py2smt+pyx2py+ll2smt',
+    technique='SMT (z3 QF_FPBV) equivalence of the decoders/encoders, translated from the current Python/Cython/LLVM-IR source, with the standards\' value formulas over all bit patterns',
+    text='Bounded symbolic checking: for every fixed-length LIS-79/RP66V1 code the decoder source is translated to a z3 term and proved equal to the '
+         'standard\'s formula on every bit pattern of the code\'s width (2^8..2^64 patterns per query), bytes consumed and *_len helpers included; '
+         'code 68 Python = Cython = C++ bit-for-bit on every word / every finite double; to68 inverse and loss bound on every in-range double. '
+         'Not a proof: ldexp/frexp/struct are modelled and variable-length codes are bounded (<= 5 bytes).',
+    note='Trusted: z3, the py2smt/pyx2py/ll2smt translators (validated against the real functions and against builds of the current .pyx/.cpp on every run), '
+         'models of ldexp/frexp/struct.unpack, spec/repcodes.py. Outside: dipmeter codes, text code 65, unsupported RP66V1 codes, code 50 exponents beyond +-1000.',
+)
+
 META = dict(
     explanation='Each obligation encodes the current source of one decoder/encoder (Python AST -> z3 bit-vector + IEEE-754 terms, '
                 'branches merged with ite) and asks z3 for a word / double on which it differs from the standard\'s value formula '
@@ -84,9 +95,9 @@ def ob_lis_from(code):
             if excluded('from50_negative_exponent'):
                 assume.append(e >= 0)
         if code in S.LIS_IS_FLOAT:
-            goal = z3.And(out.ok(), z3.fpEQ(ctx.lift_float(out.value), spec))
+            goal = [out.ok(), z3.fpEQ(ctx.lift_float(out.value), spec)]
         else:
-            goal = z3.And(out.ok(), ctx.lift_int(out.value) == spec)
+            goal = [out.ok(), ctx.lift_int(out.value) == spec]
         r = P.decide(assume, goal, side=out.side, names=['w'])
         r['functions'] = sorted(ctx.encoded)
         return r
@@ -124,7 +135,7 @@ def ob_lis_public(code):
     def fn():
         from engine import pyx2py
         R = _lis()
-        ctx = P.Ctx()
+        ctx = P.Ctx(narrow=(code != 50), extra_calls=pyx2py.extra_calls())
         I = P.Interp(ctx)
         bits = S.LIS_SIZE[code] * 8
         w = z3.BitVec('w', bits)
@@ -143,9 +154,9 @@ def ob_lis_public(code):
             if excluded('from50_negative_exponent'):
                 assume.append(e >= 0)
         if code in S.LIS_IS_FLOAT:
-            goal = z3.And(out.ok(), z3.fpEQ(ctx.lift_float(out.value), spec))
+            goal = [out.ok(), z3.fpEQ(ctx.lift_float(out.value), spec)]
         else:
-            goal = z3.And(out.ok(), ctx.lift_int(out.value) == spec)
+            goal = [out.ok(), ctx.lift_int(out.value) == spec]
         r = P.decide(assume, goal, side=out.side, names=['w'])
         r['functions'] = sorted(ctx.encoded)
         return r
@@ -232,7 +243,7 @@ def ob_to68_roundtrip():
         assume = []
         if excluded('to68_minimum'):
             assume.append(w != 0x80000000)
-        goal = z3.And(v.ok(), enc.ok(), back.ok(), z3.fpEQ(ctx.lift_float(back.value), ctx.lift_float(v.value)))
+        goal = [z3.And(v.ok(), enc.ok(), back.ok()), z3.fpEQ(ctx.lift_float(back.value), ctx.lift_float(v.value))]
         r = P.decide(assume, goal, side=v.side + enc.side + back.side, names=['w'], timeout_s=300)
         r['functions'] = sorted(ctx.encoded)
         return r
@@ -272,7 +283,7 @@ def ob_to68_loss():
         if excluded('to68_minimum'):
             assume.append(z3.Not(z3.fpEQ(v, lo)))
         err = z3.fpAbs(z3.fpSub(P.RNE, ctx.lift_float(back.value), v))
-        goal = z3.And(enc.ok(), back.ok(), z3.fpLT(err, z3.fpMul(P.RNE, z3.fpAbs(v), z3.FPVal(2.0 ** -22, P.F64))))
+        goal = [z3.And(enc.ok(), back.ok()), z3.fpLT(err, z3.fpMul(P.RNE, z3.fpAbs(v), z3.FPVal(2.0 ** -22, P.F64)))]
         r = P.decide(assume, goal, side=enc.side + back.side, names=['vbits'], timeout_s=600)
         r['functions'] = sorted(ctx.encoded)
         return r
@@ -483,8 +494,119 @@ def ob_rp_uvari():
               fn=fn, replay=replay)
 
 
+def ob_threeway_from68():
+    def fn():
+        from engine import pyx2py, ll2smt
+        R = _lis()
+        w = z3.BitVec('w', 32)
+        ctx = P.Ctx(extra_calls=pyx2py.extra_calls())
+        I = P.Interp(ctx)
+        py = I.call(R.from68, [ctx.from_bv(w)])
+        cy = I.call(pyx2py.load_pyx_functions()['from68'], [ctx.from_bv(w)])
+        ir = ll2smt.parse_functions(ll2smt.emit_ir())
+        cpp, enc = ll2smt.encode(ir, ll2smt.find(ir, '_from68'), [w], ctx)
+        # translator validation of the IR and pyx encodings against builds of the current sources
+        real_cpp = ll2smt.build_cpp()
+        real_cy = pyx2py.build_cython_from_source()
+        rnd = kern.rng(683)
+        for x in [0x444C8000, 0xBBB38000, 0, 0x80000000, 0xffffffff] + [rnd.getrandbits(32) for _ in range(60)]:
+            sub = [(w, z3.BitVecVal(x, 32))]
+            a = kern.fp_value(z3.simplify(z3.substitute(cpp, *sub)))
+            b = kern.py_value(cy.value, sub)
+            if a != real_cpp['from68'](x) or b != real_cy.from68(x):
+                return kern.harness_error('translator validation failed at %#x: IR %r vs built %r; pyx %r vs built %r' % (x, a, real_cpp['from68'](x), b, real_cy.from68(x)))
+        pv, cv = ctx.lift_float(py.value), ctx.lift_float(cy.value)
+        goal = [z3.And(py.ok(), cy.ok()), pv == cv, cv == cpp]     # bit-for-bit (structural FP equality)
+        r = P.decide([], goal, side=py.side + cy.side + enc.ctx.side[len(py.side) + len(cy.side):], names=['w'], timeout_s=120)
+        r['functions'] = sorted(ctx.encoded) + ['LISRepCode.cpp _from68 (LLVM IR)']
+        return r
+
+    def replay(m):
+        from engine import pyx2py, ll2smt
+        w = m['w']
+        a = _lis().from68(w)
+        b = pyx2py.build_cython_from_source().from68(w)
+        c = ll2smt.build_cpp()['from68'](w)
+        same = struct.pack('>d', a) == struct.pack('>d', b) == struct.pack('>d', c)
+        return not same, 'from68(%#010x): pRepCode %r, cRepCode.pyx (built) %r, LISRepCode.cpp (built) %r' % (w, a, b, c)
+    return Ob('from68_py_eq_pyx_eq_cpp', 'smt', 'every 32-bit word, bit-for-bit', ['pRepCode.from68', 'cRepCode.pyx from68', 'LISRepCode.cpp _from68 (LLVM IR)'],
+              fn=fn, replay=replay, timeout=120)
+
+
+def ob_threeway_to68(narrow=True):
+    def fn():
+        from engine import pyx2py, ll2smt
+        R = _lis()
+        vb = z3.BitVec('vbits', 64)
+        v = z3.fpBVToFP(vb, P.F64)
+        ctx = P.Ctx(extra_calls=pyx2py.extra_calls(), narrow=narrow)
+        I = P.Interp(ctx)
+        py = I.call(R.to68, [P.SFloat(v)])
+        n1 = len(ctx.side)
+        cy = I.call(pyx2py.load_pyx_functions()['to68'], [P.SFloat(v)])
+        ir = ll2smt.parse_functions(ll2smt.emit_ir())
+        cpp, enc = ll2smt.encode(ir, ll2smt.find(ir, '_to68'), [v], ctx)
+        real_cpp = ll2smt.build_cpp()
+        real_cy = pyx2py.build_cython_from_source()
+        rnd = kern.rng(684)
+        smp = [153.0, -153.0, 0.0, 2.0 ** 127, -2.0 ** 127, 1e40, -1e40, 3.5e-46, -1e-45, 2.0 ** -129, -2.0 ** -140] + \
+              [math.ldexp(rnd.uniform(-1, 1), rnd.randint(-160, 140)) for _ in range(60)]
+        for x in smp:
+            sub = [(vb, z3.BitVecVal(struct.unpack('>Q', struct.pack('>d', x))[0], 64))]
+            a = z3.simplify(z3.substitute(cpp, *sub)).as_long()
+            b = kern.py_value(cy.value, sub)
+            if a != real_cpp['to68'](x) or b != real_cy.to68(x):
+                return kern.harness_error('translator validation failed at %r: IR %#x vs built %#x; pyx %#x vs built %#x' % (x, a, real_cpp['to68'](x), b, real_cy.to68(x)))
+        assume = [z3.Not(z3.fpIsNaN(v)), z3.Not(z3.fpIsInf(v))]
+        if narrow:
+            assume.append(z3.Not(z3.fpIsSubnormal(v)))
+        pv, cv = ctx.lift_int(py.value), ctx.lift_int(cy.value)
+        goal = [z3.And(py.ok(), cy.ok()), pv == cv, z3.And(z3.Extract(31, 0, cv) == cpp, z3.Extract(63, 32, cv) == 0)]
+        r = P.decide(assume, goal, side=ctx.side, names=['vbits'], timeout_s=600)
+        r['functions'] = sorted(ctx.encoded) + ['LISRepCode.cpp _to68 (LLVM IR)']
+        r['note'] = (r.get('note', '') + ' C++ UB triage: static_cast<uint32_t> of a negative double in _to68 is undefined behaviour; '
+                     'modelled as the x86-64 cvttsd2si lowering (reported separately, not a violation)').strip()
+        return r
+
+    def replay(m):
+        from engine import pyx2py, ll2smt
+        v = struct.unpack('>d', struct.pack('>Q', m['vbits']))[0]
+        a = _lis().to68(v)
+        b = pyx2py.build_cython_from_source().to68(v)
+        c = ll2smt.build_cpp()['to68'](v)
+        return not (a == b == c), 'to68(%s): pRepCode %#010x, cRepCode.pyx (built) %#010x, LISRepCode.cpp (built) %#010x' % (v.hex(), a, b, c)
+    return Ob('to68_py_eq_pyx_eq_cpp' + ('' if narrow else '_subnormals'), 'smt',
+              'every finite double' + (' that is zero or normal' if narrow else ' including subnormals (wide-exponent frexp/ldexp model)'),
+              ['pRepCode.to68', 'cRepCode.pyx to68', 'LISRepCode.cpp _to68 (LLVM IR)'], fn=fn, replay=replay, timeout=600,
+              tiers=('quick', 'thorough') if narrow else ('thorough',))
+
+
+def ob_cpp_eq_spec(which):
+    def fn():
+        from engine import ll2smt
+        bits = 32 if which == 68 else 16
+        w = z3.BitVec('w', bits)
+        ir = ll2smt.parse_functions(ll2smt.emit_ir())
+        cpp, enc = ll2smt.encode(ir, ll2smt.find(ir, '_from%d' % which), [w])
+        spec = S.LIS_SPEC[which](w)
+        r = P.decide([], z3.fpEQ(cpp, spec), side=enc.ctx.side, names=['w'], timeout_s=120)
+        r['functions'] = ['LISRepCode.cpp _from%d (LLVM IR)' % which]
+        return r
+
+    def replay(m):
+        from engine import ll2smt
+        w = m['w']
+        got = ll2smt.build_cpp()['from%d' % which](w)
+        exp = REF.LIS[which](w)
+        return got != exp, 'LISRepCode.cpp _from%d(%#x) = %r; LIS-79 value %r' % (which, w, got, exp)
+    return Ob('cpp_from%d_eq_spec' % which, 'smt', 'every %d-bit word' % (32 if which == 68 else 16), ['LISRepCode.cpp _from%d (LLVM IR)' % which],
+              fn=fn, replay=replay, timeout=120)
+
+
 def obligations(tier):
     obs = [ob_lis_from(c) for c in (49, 50, 56, 66, 68, 70, 73, 77, 79)]
+    obs += [ob_lis_public(c) for c in (49, 50, 56, 66, 68, 70, 73, 77, 79)]
+    obs += [ob_threeway_from68(), ob_threeway_to68(True), ob_threeway_to68(False), ob_cpp_eq_spec(68), ob_cpp_eq_spec(49)]
     obs += [ob_lis_sizes(), ob_to68_roundtrip(), ob_to68_loss()]
     obs += [ob_rp_fixed(c) for c in sorted(RP_FIXED)]
     obs += [ob_rp_uvari()]
